@@ -85,6 +85,9 @@ Lemma invert_tie : forall (a b : acon) (k : constr),
   (gen_leaf_apply_self = true /\ apply_acon (ALeaf k) = [k]).
 Proof. intros. repeat split; reflexivity. Qed.
 
+Lemma stale_test_tie : gen_stale_test = model_stale_test.
+Proof. reflexivity. Qed.
+
 (* ---- EqualsPredicate / InPredicate ---- *)
 Lemma gen_equals_agrees : forall a b c d e f g h i,
   gen_equals a b c d e f g h i = equals_skel a b c d e f g h i.
